@@ -272,5 +272,6 @@ func (p *Plenc) CodecForTypeRegistry(registry plenccodec.CodecRegistry, typ refl
 	}
 
 	verifhook.Yield("store")
+	defer verifhook.Yield("stored")
 	return registry.StoreOrSwap(typ, tag, c), nil
 }
